@@ -111,15 +111,21 @@ Qed.
 Lemma sp_not_name : is_name_char SP = false. Proof. reflexivity. Qed.
 Lemma sp_is_ws : is_xml_ws SP = true. Proof. reflexivity. Qed.
 
+Lemma name_ok_chars t : name_ok t = true -> forallb is_name_char t = true /\ t <> [].
+Proof.
+  destruct t as [|c t]; [discriminate|]. unfold name_ok. intros H. apply andb_true_iff in H. destruct H as [_ H].
+  split; [exact H|discriminate].
+Qed.
+
 Lemma read_pi_str t c rest :
   pi_target_ok t = true -> pi_content_ok c = true ->
   read_pi (t ++ [SP] ++ c ++ L_PI_CLOSE ++ rest) = Some (t, c, rest).
 Proof.
   unfold pi_target_ok, pi_content_ok. intros Ht Hc.
-  apply andb_true_iff in Ht. destruct Ht as [Ht _]. apply andb_true_iff in Ht. destruct Ht as [Hne Hn].
+  apply andb_true_iff in Ht. destruct Ht as [Hname _]. destruct (name_ok_chars t Hname) as [Hn _].
   apply andb_true_iff in Hc. destruct Hc as [Hs Hcl]. apply negb_true_iff in Hs, Hcl.
   unfold read_pi. rewrite span_app; [|assumption|cbn [app]; apply sp_not_name].
-  destruct t as [|t0 t]; [discriminate|]. cbn [null].
+  rewrite Hname. cbn [negb].
   cbn [app]. unfold L_PI_CLOSE at 1. cbn [py_prefix]. change (63 =? SP) with false. cbn [andb].
   cbn [starts_ws]. rewrite sp_is_ws. cbn [skip_ws]. rewrite sp_is_ws.
   rewrite skip_ws_id.
@@ -130,7 +136,7 @@ Qed.
 Lemma read_pi_len s t c r : read_pi s = Some (t, c, r) -> (length r <= length s)%nat.
 Proof.
   unfold read_pi. destruct (span is_name_char s) as [a b] eqn:E. apply span_len in E.
-  destruct (null a); [discriminate|].
+  destruct (negb (name_ok a)); [discriminate|].
   destruct (py_prefix L_PI_CLOSE b).
   - intros H. destruct b as [|x [|y b']]; injection H as <- <- <-; cbn in *; lia.
   - destruct (starts_ws b); [|discriminate].
@@ -574,15 +580,20 @@ Qed.
 (* ------------------------------------------------------------------------------------------ *)
 (* no carriage return in the stream when there is none in the parts *)
 
-Lemma name_char_plain c : is_name_char c = true -> (c =? CR) = false.
+Lemma in_ranges_lower lo t c :
+  forallb (fun r => lo <=? fst r) t = true -> in_ranges t c = true -> lo <= c.
 Proof.
-  intros H.
-  assert (Hc : 45 <= c).
-  { unfold is_name_char in H. repeat (apply orb_true_iff in H; destruct H as [H|H]);
-      try (apply andb_true_iff in H; destruct H as [H _]; apply N.leb_le in H; lia);
-      try (apply N.eqb_eq in H; lia). apply N.leb_le in H. lia. }
-  apply N.eqb_neq. unfold CR. lia.
+  unfold in_ranges. induction t as [|[a b] t IH]; cbn [forallb existsb fst snd]; intros H1 H2; [discriminate|].
+  apply andb_true_iff in H1. destruct H1 as [Ha Ht]. apply orb_true_iff in H2. destruct H2 as [H2|H2].
+  - apply andb_true_iff in H2. destruct H2 as [H2 _]. apply N.leb_le in Ha, H2. lia.
+  - auto.
 Qed.
+
+Lemma name_char_ge c : is_name_char c = true -> 45 <= c.
+Proof. apply (in_ranges_lower 45). reflexivity. Qed.
+
+Lemma name_char_plain c : is_name_char c = true -> (c =? CR) = false.
+Proof. intros H. apply name_char_ge in H. apply N.eqb_neq. unfold CR. lia. Qed.
 
 Lemma name_no_cr t : forallb is_name_char t = true -> no_cr t = true.
 Proof.
@@ -596,7 +607,7 @@ Proof.
   - apply andb_true_iff in H. destruct H as [_ H]. rewrite !no_cr_app, H. reflexivity.
   - apply andb_true_iff in H. destruct H as [H Hc]. apply andb_true_iff in H. destruct H as [Ht _].
     unfold pi_target_ok in Ht. apply andb_true_iff in Ht. destruct Ht as [Ht _].
-    apply andb_true_iff in Ht. destruct Ht as [_ Ht]. apply name_no_cr in Ht.
+    apply name_ok_chars in Ht. destruct Ht as [Ht _]. apply name_no_cr in Ht.
     rewrite !no_cr_app, Ht, Hc. reflexivity.
 Qed.
 
@@ -863,25 +874,21 @@ Proof. intros H. unfold set_root. rewrite H. reflexivity. Qed.
 
 Lemma toy_read_ser k t rest : toy_root_ok t = true -> toy_read (toy_ser k t ++ rest) = Some (toy_norm k t, rest).
 Proof.
-  destruct t as [ns name attrs kids| | |]; try discriminate. destruct name as [|c name]; [discriminate|].
-  unfold toy_ser, toy_norm, toy_name. cbn [toy_root_ok]. intros H. apply andb_true_iff in H. destruct H as [Hc Hn].
+  destruct t as [ns name attrs kids| | |]; try discriminate.
+  unfold toy_ser, toy_norm, toy_name. cbn [toy_root_ok]. intros H. destruct (name_ok_chars name H) as [Hn _].
   unfold toy_read. cbn [app]. rewrite <- app_assoc.
-  change (c :: name ++ [47; 62] ++ rest) with ((c :: name) ++ 47 :: 62 :: rest).
-  rewrite span_app; [reflexivity| |reflexivity]. cbn [forallb]. rewrite Hc, Hn. reflexivity.
+  rewrite span_app; [|exact Hn|reflexivity]. rewrite H. reflexivity.
 Qed.
 
 Lemma toy_shape k t : toy_root_ok t = true -> root_shape (toy_ser k t) = true /\ no_cr (toy_ser k t) = true.
 Proof.
-  destruct t as [ns name attrs kids| | |]; try discriminate. destruct name as [|c name]; [discriminate|].
-  unfold toy_ser, toy_name. cbn [toy_root_ok]. intros H. apply andb_true_iff in H. destruct H as [Hc Hn]. split.
+  destruct t as [ns name attrs kids| | |]; try discriminate.
+  unfold toy_ser, toy_name. cbn [toy_root_ok]. intros H. destruct (name_ok_chars name H) as [Hn Hne].
+  destruct name as [|c name]; [congruence|]. cbn [forallb] in Hn. apply andb_true_iff in Hn. destruct Hn as [Hc Hn].
+  split.
   - unfold root_shape. cbn [app].
     assert (H1 : (c =? 33) = false /\ (c =? 63) = false).
-    { assert (45 <= c).
-      { unfold is_name_char in Hc. repeat (apply orb_true_iff in Hc; destruct Hc as [Hc|Hc]);
-          try (apply andb_true_iff in Hc; destruct Hc as [Hc _]; apply N.leb_le in Hc; lia);
-          try (apply N.eqb_eq in Hc; lia). apply N.leb_le in Hc. lia. }
-      assert (c <> 63).
-      { intros ->. discriminate. }
+    { pose proof (name_char_ge c Hc). assert (c <> 63) by (intros ->; discriminate).
       split; apply N.eqb_neq; lia. }
     destruct H1 as [-> ->]. cbn [negb andb].
     replace (60 :: c :: name ++ [47; 62]) with ((60 :: c :: name ++ [47]) ++ [62]).
